@@ -708,7 +708,7 @@ SCENS = {"connect": ConnectScen, "crossbar": CrossbarScen, "map": MapScen, "filt
 class Prop(PropBase):
     ID = "C18"
     tiers = {
-        "quick": {"runs": 480, "selftest_runs": 4},
+        "quick": {"runs": 720, "selftest_runs": 4},
         "thorough": {"runs": 12000, "selftest_runs": 32},
     }
     rule = ("one run = one transformer kind (ConnectTrans, CrossbarConnectTrans 1-3x1-3, MethodMap, MethodFilter, "
